@@ -90,7 +90,9 @@ impl Report {
     pub fn violation(&mut self, v: Violation) {
         // keep at most 5 per (stream, signature) so a systematic break does not flood the report
         let same = self.violations.iter().filter(|x| x.stream == v.stream && x.signature == v.signature).count();
-        if same < 3 && self.violations.len() < 60 {
+        // separate budgets: a flood of model disagreements must not crowd out a failing input found later
+        let of_kind = self.violations.iter().filter(|x| x.confirmed_on_impl == v.confirmed_on_impl).count();
+        if same < 3 && of_kind < 60 {
             self.violations.push(v);
         }
     }
